@@ -31,6 +31,7 @@ META = {
 }
 META['text'] += ' pretty_repr reaches the pipeline with the same settings as pformat under changed defaults.'
 META['text'] += " Round 5: (a) pformat text == pprint text == the text the stream denotes, on streams longer than every size constant of the entry module and the renderer; an entry point that walks the stream itself is judged by what it writes; (d) PrettyPrinter(s=v).pformat reaches the pipeline with the settings of pformat(s=v), also for v past the module's size constants."
+META['text'] += ' (c) a history of set_default_config calls two longer than every size constant of the module: after each call the table holds every setting given so far and the built-in default for the rest (collections.ChainMap is modelled).'
 
 SETTINGS_MIN = 6
 
@@ -172,6 +173,8 @@ def run(repo, rep):
         raise AnalysisError('python_to_sdocs takes %s: fewer settings than the property names' % settings)
     DC = __import__('engine.roles', fromlist=['x']).name(repo, 'default_config')
     dc = m.assigns.get(DC)
+    if dc and isinstance(dc[0], ast.Call) and len(dc[0].args) == 1 and isinstance(dc[0].args[0], ast.Dict) and not dc[0].keywords:
+        dc = [dc[0].args[0]] + list(dc[1:])         # a dict literal handed to a mapping constructor (dict(...), ChainMap(...))
     if not dc or not isinstance(dc[0], ast.Dict):
         raise AnalysisError('_default_config is no longer a dict literal')
     default_keys = [k.value for k in dc[0].keys if isinstance(k, ast.Constant)]
@@ -464,6 +467,51 @@ def run(repo, rep):
                           'get_default_config is a view of the current table', 'get_default_config returns %s' % prov(g[0].value) if g else '?', nontrivial=True)
             except Undecided as e:
                 rep.undecided('C18.c', 'get_default_config[%s]' % label, gdc.where, str(e))
+    # a history of calls, longer than every size constant the module compares against (and than a fixed small count): after each call
+    # the table holds every setting given so far (the latest value) and the built-in default for the rest
+    from engine import thresholds as _th2
+    mined2, _b2 = _th2.mine([m], most=200)
+    ncalls = max(list(mined2) + [7]) + 2
+    rec = Recorder(repo)
+    start = default_table(rec)
+    expect = {k.v: v for k, v in start.items} if start is not None else {}
+    hist_bad = None
+    hist_und = None
+    done = 0
+    for i in range(ncalls):
+        p_ = sparams[i % len(sparams)]
+        val = 300 + i
+        try:
+            prs = rec.it.explore(sdc, [], {p_: Const(val)})
+        except (Undecided, PathLimit) as e:
+            hist_und = 'call %d: %s' % (i + 1, e)
+            break
+        if len(prs) != 1 or prs[0].raised is not None:
+            hist_und = 'call %d forks / raises' % (i + 1)
+            break
+        expect[p_] = Const(val)
+        tab = default_table(rec)
+        if tab is None:
+            hist_bad = 'after %d calls there is no default table' % (i + 1)
+            break
+        got = {k.v: v for k, v in tab.items}
+        wrong = [k_ for k_ in sorted(set(expect) | set(got)) if not (
+            got.get(k_) is expect.get(k_) or (isinstance(got.get(k_), Const) and isinstance(expect.get(k_), Const) and got[k_].v == expect[k_].v
+                                              and type(got[k_].v) is type(expect[k_].v)))]
+        if wrong:
+            hist_bad = ('after %d calls of set_default_config (the last one %s=%d) the default for %r is %s, expected %s: the table must hold every '
+                        'setting given so far and the built-in default for the rest' % (
+                            i + 1, p_, val, wrong[0], prov(got[wrong[0]]) if wrong[0] in got else '<missing>',
+                            prov(expect[wrong[0]]) if wrong[0] in expect else '<absent>'))
+            break
+        done += 1
+    n += 1
+    if hist_bad:
+        rep.fail('C18.c', 'set_default_config:history[%d calls]' % ncalls, sdc.where, hist_bad)
+    elif hist_und:
+        rep.undecided('C18.c', 'set_default_config:history[%d calls]' % ncalls, sdc.where, hist_und)
+    else:
+        rep.check(done == ncalls, 'C18.c', 'set_default_config:history[%d calls]' % ncalls, sdc.where, 'the table follows a history of %d calls' % ncalls, '', nontrivial=True)
     # style routed
     rec = Recorder(repo)
     try:
